@@ -14,6 +14,11 @@
 //   solmix <adders> <readers> <clearers> <per> <seed>        add / getSolutions / clearSolutionPaths mixed; real-time-order oracle
 //   solrace <k> <rounds>                                     directed: an add whose sort is held open (objective hook) while
 //                                                            clear + k adds run; outcome must be one of the sequential ones
+//   cfrace <rounds> [<free>]                                 directed: two real CForest instances report through
+//                                                            CForest::newSolutionFound; the worse report (A) is held inside the
+//                                                            objective's cost comparison until the better one (B) is through;
+//                                                            then one un-choreographed run, <free> reports per instance (no
+//                                                            handshake, so that TSan sees the accesses as they are)
 //   terminate <pollers> <form 0|1|2>                         terminate() from another thread; 0 direct, 1 periodic,
 //                                                            2 periodic with a predicate that is blocked inside its call
 //                                                            while terminate() arrives (handshake)
@@ -805,6 +810,226 @@ namespace
                " first_bad=" + (firstBad.empty() ? std::string("-") : firstBad);
     }
 
+    // ---------------------------------------------------------------- CForest::newSolutionFound, directed schedule
+    // (construction of seeded/C19-s4/demo.cpp.)  Two instances of a tiny planner run inside a real CForest, each on the worker
+    // thread CForest::solve() starts for it, and report one solution each through the intermediate-solution callback CForest
+    // installs: A cost a, B cost b.  The schedule  "A enters the cost comparison of its report -> B does its whole report ->
+    // A finishes"  is forced without sleeps: the objective's isCostBetterThan computes its answer and then holds A until B
+    // had its turn; B looks at CForest's own mutex (protected, through a derived class): if A owns it while comparing (the
+    // report is a monitor, as it must be) B lets A finish first and queues behind it.
+    // Sequential spec of the monitor: best cost afterwards = min(a, b); paths shared = number of strict improvements in SOME
+    // sequential order of the two reports; best cost = cost of the best solution in the problem definition.
+    std::atomic<bool> cfArmed{false}, cfAComparing{false}, cfRelease{false};
+    std::atomic<int> cfSerialised{-1};
+    thread_local int cfRole = -1;
+    thread_local bool cfInReport = false;
+    double cfCost[2] = {0., 0.};
+    unsigned cfFree = 0;  // > 0: un-choreographed run, this many reports per instance
+
+    class CfObjective : public ob::PathLengthOptimizationObjective
+    {
+    public:
+        using ob::PathLengthOptimizationObjective::PathLengthOptimizationObjective;
+        bool isCostBetterThan(ob::Cost c1, ob::Cost c2) const override
+        {
+            const bool better = ob::OptimizationObjective::isCostBetterThan(c1, c2);
+            // (relaxed on purpose: the choreography must not itself order A's comparison before B's update — then a race
+            // detector still sees the two accesses to CForest's field exactly as unordered as the library leaves them)
+            if (cfRole == 0 && cfInReport && cfArmed.exchange(false, std::memory_order_relaxed))
+            {
+                cfAComparing.store(true, std::memory_order_relaxed);
+                auto until = std::chrono::steady_clock::now() + std::chrono::seconds(20);  // hang guard only
+                while (!cfRelease.load(std::memory_order_relaxed) && std::chrono::steady_clock::now() < until)
+                    std::this_thread::yield();
+            }
+            return better;
+        }
+    };
+
+    class ProbedCForest : public og::CForest
+    {
+    public:
+        using og::CForest::CForest;
+        bool reportInProgress()
+        {
+            for (int i = 0; i < 4; ++i)  // try_lock may fail spuriously; a held mutex fails every time
+                if (newSolutionFoundMutex_.try_lock())
+                {
+                    newSolutionFoundMutex_.unlock();
+                    return false;
+                }
+            return true;
+        }
+    };
+    ProbedCForest *cfForest = nullptr;
+    int cfCount = 0;
+
+    class CfReporter : public ob::Planner
+    {
+    public:
+        CfReporter(const ob::SpaceInformationPtr &si) : ob::Planner(si, "Reporter" + std::to_string(cfCount)), id_(cfCount++)
+        {
+            specs_.canReportIntermediateSolutions = true;
+            specs_.optimizingPaths = true;
+            declareParam<bool>("focus_search", this, &CfReporter::setFocusSearch, &CfReporter::getFocusSearch, "0,1");
+        }
+        ~CfReporter() override
+        {
+            for (auto *st : states_)
+                si_->freeState(st);
+        }
+        void setFocusSearch(bool f)
+        {
+            focus_ = f;
+        }
+        bool getFocusSearch() const
+        {
+            return focus_;
+        }
+        ob::PlannerStatus solve(const ob::PlannerTerminationCondition &) override
+        {
+            cfRole = id_;
+            const ob::OptimizationObjectivePtr opt = pdef_->getOptimizationObjective();
+            // (0,0) -> (0,h) -> (4,h) -> (4,0): length 4 + 2h
+            const double h = (cfCost[id_] - 4.) / 2.;
+            const double xy[4][2] = {{0., 0.}, {0., h}, {4., h}, {4., 0.}};
+            auto path(std::make_shared<og::PathGeometric>(si_));
+            std::vector<const ob::State *> cstates;
+            for (const auto &p : xy)
+            {
+                ob::State *st = si_->allocState();
+                st->as<ob::RealVectorStateSpace::StateType>()->values[0] = p[0];
+                st->as<ob::RealVectorStateSpace::StateType>()->values[1] = p[1];
+                states_.push_back(st);
+                cstates.push_back(st);
+                path->append(st);
+            }
+            const ob::Cost cost = path->cost(opt);
+            const ob::ReportIntermediateSolutionFn report = pdef_->getIntermediateSolutionCallback();
+            auto doReport = [&] {
+                cfInReport = true;
+                report(this, cstates, cost);
+                cfInReport = false;
+            };
+            if (cfFree)
+            {
+                // both instances report strictly improving costs as fast as they can: A 2·cfFree+100, …, B one less each
+                for (unsigned k = 0; k < cfFree; ++k)
+                {
+                    report(this, cstates, ob::Cost(100. + 2. * (cfFree - k) - id_));
+                    if (k % 7 == 3)
+                        std::this_thread::yield();
+                }
+            }
+            else if (id_ == 0)
+            {
+                cfArmed = true;
+                doReport();
+            }
+            else
+            {
+                auto until = std::chrono::steady_clock::now() + std::chrono::seconds(20);
+                while (!cfAComparing.load(std::memory_order_relaxed) && std::chrono::steady_clock::now() < until)
+                    std::this_thread::yield();
+                if (cfForest->reportInProgress())
+                {
+                    cfSerialised = 1;  // A owns the critical section while comparing: queue behind it
+                    cfRelease.store(true, std::memory_order_relaxed);
+                    doReport();
+                }
+                else
+                {
+                    cfSerialised = 0;  // A's comparison is not covered by the critical section: B's report fits in completely
+                    doReport();
+                    cfRelease.store(true, std::memory_order_relaxed);
+                }
+            }
+            pdef_->addSolutionPath(path, false, 0.0, getName());
+            return ob::PlannerStatus::EXACT_SOLUTION;
+        }
+
+    private:
+        int id_;
+        bool focus_{false};
+        std::vector<ob::State *> states_;
+    };
+
+    std::string opCfRace(const std::vector<std::string> &t)
+    {
+        size_t i = 1;
+        unsigned rounds = needN(t, i), freeReports = i < t.size() ? needN(t, i) : 0;
+        unsigned long bad = 0, serialised = 0, overtaken = 0;
+        std::string firstBad = "-";
+        for (unsigned round = 0; round < rounds + (freeReports ? 1 : 0); ++round)
+        {
+            cfFree = round == rounds ? freeReports : 0;
+            // A is the worse report in even rounds (the case a check-then-act split gets wrong), the better one in odd rounds
+            double a = round % 2 == 0 ? 10. + round : 6., b = round % 2 == 0 ? 8. : 9. + round;
+            cfCost[0] = a;
+            cfCost[1] = b;
+            cfArmed = false;
+            cfAComparing = false;
+            cfRelease = false;
+            cfSerialised = -1;
+            cfCount = 0;
+            auto space(std::make_shared<ob::RealVectorStateSpace>(2));
+            space->setBounds(-1., 50.);
+            auto si(std::make_shared<ob::SpaceInformation>(space));
+            si->setStateValidityChecker([](const ob::State *) { return true; });
+            si->setup();
+            ob::ScopedState<> start(space), goal(space);
+            start[0] = 0.;
+            start[1] = 0.;
+            goal[0] = 4.;
+            goal[1] = 0.;
+            auto pdef(std::make_shared<ob::ProblemDefinition>(si));
+            pdef->setStartAndGoalStates(start, goal, 1e-6);
+            auto opt(std::make_shared<CfObjective>(si));
+            pdef->setOptimizationObjective(opt);
+            auto cforest(std::make_shared<ProbedCForest>(si));
+            cfForest = cforest.get();
+            cforest->setProblemDefinition(pdef);
+            cforest->addPlannerInstances<CfReporter>(2);
+            cforest->setup();
+            cforest->solve(ob::plannerNonTerminatingCondition());
+            const double best = std::stod(cforest->getBestCost());
+            const unsigned long shared = std::stoul(cforest->getNumPathsShared());
+            const double pdefBest = pdef->hasSolution() ? pdef->getSolutionPath()->cost(opt).value() : -1.;
+            if (cfFree)
+            {
+                // un-choreographed run: the smallest cost reported is B's last one, 101; every report is a candidate improvement
+                bool okFree = std::fabs(best - 101.) < 1e-9 && shared >= 1 && shared <= 2ul * cfFree;
+                if (!okFree)
+                {
+                    ++bad;
+                    if (firstBad == "-")
+                        firstBad = "free:best=" + std::to_string((long)best) + ",min_reported=101,shared=" + std::to_string(shared);
+                }
+                cfFree = 0;
+                cfForest = nullptr;
+                continue;
+            }
+            const double expected = std::min(a, b);
+            // improvements in the order A;B and in the order B;A
+            const unsigned long sAB = 1 + (b < a), sBA = 1 + (a < b);
+            serialised += cfSerialised.load() == 1;
+            overtaken += cfSerialised.load() == 0;
+            bool ok = std::fabs(best - expected) < 1e-9 && std::fabs(best - pdefBest) < 1e-9 && (shared == sAB || shared == sBA) &&
+                      cfSerialised.load() >= 0;
+            if (!ok)
+            {
+                ++bad;
+                if (firstBad == "-")
+                    firstBad = "round" + std::to_string(round) + ":A=" + std::to_string((long)a) + ",B=" + std::to_string((long)b) +
+                               ",best=" + std::to_string((long)best) + ",pdef_best=" + std::to_string((long)pdefBest) +
+                               ",shared=" + std::to_string(shared) + ",B_overtook_A=" + std::to_string(cfSerialised.load() == 0);
+            }
+            cfForest = nullptr;
+        }
+        return "cfrace rounds=" + std::to_string(rounds) + " serialised=" + std::to_string(serialised) +
+               " overtaken=" + std::to_string(overtaken) + " bad=" + std::to_string(bad) + " first_bad=" + firstBad;
+    }
+
     // ---------------------------------------------------------------- logging
     // The handler keeps a PLAIN counter on purpose: ompl::msg::log serialises handler calls under its own mutex, so
     // the count must still be exact (and TSan must stay silent) — if that lock goes, this is where it shows.
@@ -1119,6 +1344,8 @@ int main()
                 out = opSolMix(t);
             else if (t[0] == "solrace")
                 out = opSolRace(t);
+            else if (t[0] == "cfrace")
+                out = opCfRace(t);
             else if (t[0] == "logging")
                 out = opLogging(t);
             else if (t[0] == "terminate")
